@@ -84,7 +84,7 @@ def g_stmt(s):
 # ---------------------------------------------------------------------------
 class Opts:
     def __init__(self, kw_case="upper", id_case="lower", use_as=True, rename=None, qualify=None, quote=None,
-                 noise=None, trailing=";", fun4=False):
+                 noise=None, trailing=";", fun4=False, recursive=False):
         self.kw_case, self.id_case, self.use_as = kw_case, id_case, use_as
         self.rename = rename or {}          # statement-local names (aliases, CTE names) -> new names
         self.qualify = qualify              # schema to write in front of unqualified table names
@@ -92,6 +92,7 @@ class Opts:
         self.noise = noise                  # callable(index) -> separator string
         self.trailing = trailing
         self.fun4 = fun4                    # print coalesce(a, b) as coalesce(a, b, a, b)
+        self.recursive = recursive          # print WITH RECURSIVE (the CTE names are visible in their own bodies)
 
     def kw(self, w):
         if self.kw_case == "upper": return w.upper()
@@ -183,8 +184,16 @@ def t_query(q, o, ctes):
         return out
     if q[0] == "union":
         return t_query(q[1], o, ctes) + [("kw", o.kw("union")), ("kw", o.kw("all"))] + t_query(q[2], o, ctes)
-    return [("kw", o.kw("with")), ("id", o.local(q[1])), ("kw", o.kw("as")), ("sym", "(")] + t_query(q[2], o, ctes) + [("sym", ")")] + \
-        t_query(q[3], o, ctes | {q[1]})
+    # WITH a AS (..) [WITH b AS (..) body]  is written as the list  WITH a AS (..), b AS (..) body
+    out = [("kw", o.kw("with"))] + ([("kw", o.kw("recursive"))] if o.recursive else [])
+    first = True
+    while q[0] == "with":
+        inner = ctes | {q[1]} if o.recursive else ctes
+        out += ([] if first else [("sym", ",")]) + [("id", o.local(q[1])), ("kw", o.kw("as")), ("sym", "(")] + t_query(q[2], o, inner) + [("sym", ")")]
+        ctes = ctes | {q[1]}
+        first = False
+        q = q[3]
+    return out + t_query(q, o, ctes)
 
 
 NODATA = ["delete from s1.t1 where k = 1", "truncate table s1.t1", "delete from t4", "truncate table s2.t3"]
@@ -246,16 +255,30 @@ def gen_expr(r, scope_refs, depth):
     return win(sub(), sub(), sub())
 
 
+class Names(set):
+    """statement-level generator state: the aliases taken so far; [reuse]: aliases may be reused in another
+    scope of the statement (the statement is then validated by alias_reuse_ok); [counter]: fresh suffixes"""
+    reuse = False
+    counter = 0
+
+
 def gen_select(r, depth, ctes, n_items=None, allow_star=True, used_tables=None, allow_comma=True, taken=None):
     """returns (query, output column names or None when a star makes them unknown).
-    [taken]: aliases already used elsewhere in the statement (an alias is never reused for another relation:
-    reuse across set-operation branches is the recorded defect class K-C02-4)"""
+    [taken]: aliases already used elsewhere in the statement.  By default an alias is never reused for another
+    relation; in reuse mode it may be, in another scope, as long as the recorded defect class K-C02-4 is avoided
+    (see alias_reuse_ok)"""
     used_tables = used_tables if used_tables is not None else set()
-    taken = taken if taken is not None else set()
+    taken = taken if taken is not None else Names()
     n_rel = r.choice([1, 1, 1, 2, 2, 3])
     rels, refs, has_derived = [], [], False
-    aliases = r.sample([a for a in ALIASES if a not in taken], n_rel)
+    if getattr(taken, "reuse", False):
+        aliases = r.sample(ALIASES[:3], n_rel)
+    else:
+        aliases = r.sample([a for a in ALIASES if a not in taken], n_rel)
     taken.update(aliases)
+    taken.counter = getattr(taken, "counter", 0) + 1
+    uniq = taken.counter
+    quals = []
     all_base = True
     for i in range(n_rel):
         c = r.random()
@@ -277,6 +300,9 @@ def gen_select(r, depth, ctes, n_items=None, allow_star=True, used_tables=None, 
             rels.append(rtable(t[0], t[1], al))
             used_tables.add(t)
             qual = al or t[1]
+            if al is None and t[0] is not None and r.random() < 0.35:
+                qual = t[0] + "." + t[1]          # schema.table.column
+            quals.append(qual)
             refs += [(qual, c2) for c2 in COLS]
     comma = allow_comma and n_rel > 1 and r.random() < 0.3
     if not comma and n_rel == 3 and r.random() < 0.4:
@@ -294,12 +320,14 @@ def gen_select(r, depth, ctes, n_items=None, allow_star=True, used_tables=None, 
         # unresolved references use names that are never referenced with a qualifier elsewhere (K-C02-5)
         # ... and that are not shared with another scope of the statement: unresolved columns of the same name
         # from different scopes are merged into one node (recorded: K-C04-1)
-        refs = refs + [(None, "u%s%d" % (aliases[0], j)) for j in (1, 2)]
+        refs = refs + [(None, "u%d%s%d" % (uniq, aliases[0], j)) for j in (1, 2)]
     items, names = [], []
     n_items = n_items or r.choice([1, 2, 2, 3])
     star_ok = allow_star and n_rel == 1 and rels[0][0] == "table" and not (rels[0][1][0] is None and rels[0][1][1] in [c[0] for c in ctes])
     if star_ok and r.random() < 0.15:
         items, names = [istar(None)], None
+    elif allow_star and all_base and n_rel > 1 and r.random() < 0.1:
+        items, names = [istar(r.choice(quals))], None        # qualifier.* over a join of base tables
     else:
         pool = [c for c in COLS + ["cm", "cn"]]
         for j in range(n_items):
@@ -319,26 +347,29 @@ def gen_select(r, depth, ctes, n_items=None, allow_star=True, used_tables=None, 
     return select(items, rels, comma, where), names
 
 
-def gen_query(r, depth, used_tables):
+def gen_query(r, depth, used_tables, reuse=None):
     c = r.random()
-    taken = set()
-    if c < 0.15 and depth > 0:
+    taken = Names()
+    taken.reuse = (r.random() < 0.25) if reuse is None else reuse
+    if c < 0.2 and depth > 0:
+        # WITH c1 AS (..) [, c2 AS (.. may read c1 ..)] body
         cte, names = gen_select(r, depth - 1, [], allow_star=False, used_tables=used_tables, taken=taken)
-        body, out = gen_select(r, depth - 1, [("c1", names)], used_tables=used_tables, taken=taken)
+        ctes = [("c1", names)]
+        if r.random() < 0.4:
+            cte2, names2 = gen_select(r, depth - 1, ctes, allow_star=False, used_tables=used_tables, taken=taken)
+            body, out = gen_select(r, depth - 1, ctes + [("c2", names2)], used_tables=used_tables, taken=taken)
+            return with_("c1", cte, with_("c2", cte2, body)), out
+        body, out = gen_select(r, depth - 1, ctes, used_tables=used_tables, taken=taken)
         return with_("c1", cte, body), out
-    if c < 0.3:
+    if c < 0.35:
         a, names = gen_select(r, depth - 1 if depth else 0, [], allow_star=False, used_tables=used_tables, taken=taken)
         b, _ = gen_select(r, 0, [], n_items=len(names), allow_star=False, used_tables=used_tables, taken=taken)
         return union(a, b), names
     return gen_select(r, depth, [], used_tables=used_tables, taken=taken)
 
 
-def gen_stmt(r, depth=2):
-    used = set()
-    q, names = gen_query(r, depth, used)
-    k = r.choice(["insert", "insert", "insertcols", "ctas", "view", "query", "nodata"])
-    if k == "nodata":
-        return ("nodata", r.randrange(4))
+def wrap_stmt(r, q, names):
+    k = r.choice(["insert", "insert", "insertcols", "ctas", "view", "query"])
     if k == "query":
         return ("query", q)
     tgt = r.choice([t for t in TARGETS])
@@ -349,6 +380,185 @@ def gen_stmt(r, depth=2):
     if k in ("insert", "insertcols"):
         return ("insert", tgt, None, q)
     return (k, tgt, q)
+
+
+def gen_stmt(r, depth=2, reuse=None):
+    if r.random() < 1 / 7:
+        return ("nodata", r.randrange(4))
+    for _ in range(50):
+        used = set()
+        q, names = gen_query(r, depth, used, reuse)
+        s = wrap_stmt(r, q, names)
+        if alias_reuse_ok(s):
+            return s
+    return wrap_stmt(r, *gen_query(r, depth, set(), False))
+
+
+def stmt_query(s):
+    return s[3] if s[0] == "insert" else s[2] if s[0] in ("ctas", "view") else s[1] if s[0] == "query" else None
+
+
+def scopes_of(s):
+    """every SELECT scope of a statement: [(alias or None, dataset)] with dataset = table reference tuple, or
+    ('sq', printed text) for a derived table; CTE references count as the CTE's name"""
+    out = []
+
+    def flat(rr):
+        return flat(rr[1]) + flat(rr[2]) if rr[0] == "group" else [rr]
+
+    def q_(q):
+        """appends the scopes of q; returns the datasets of its top-level scope(s)"""
+        if q[0] == "select":
+            sc = []
+            for rr in q[2]:
+                for x in flat(rr):
+                    if x[0] == "table":
+                        sc.append((x[2], x[1]))
+                    else:
+                        sc.append((x[2], ("sq", id(x[1]))))
+                        q_(x[1])
+            out.append(sc)
+            if q[4] is not None:
+                # the tables of a WHERE ... IN (sub-query) are merged into the enclosing scope's table group
+                sc += [(None, ds) for ds in q_(q[4][1])]
+            return [ds for _, ds in sc]
+        if q[0] == "union":
+            return q_(q[1]) + q_(q[2])
+        q_(q[2])
+        return q_(q[3])
+    q = stmt_query(s)
+    if q is not None:
+        q_(q)
+    return out
+
+
+def alias_reuse_ok(s):
+    """the guarded stream keeps out of the recorded defect class K-C02-4: an alias bound to X in one scope and to Y
+    in another, while Y also occurs in the first scope (the alias edges of all scopes of a statement are mixed)"""
+    def aliases_in(q):
+        return {al for sc in scopes_of(("query", q)) for al, _ in sc if al}
+
+    def nested_ok(q):
+        # ... and of K-C02-7: a derived table's alias used again for a relation inside that derived table
+        if q[0] == "select":
+            stack = list(q[2])
+            while stack:
+                x = stack.pop()
+                if x[0] == "group":
+                    stack += [x[1], x[2]]
+                elif x[0] == "derived":
+                    if x[2] in aliases_in(x[1]) or not nested_ok(x[1]):
+                        return False
+            return q[4] is None or nested_ok(q[4][1])
+        if q[0] == "union":
+            return nested_ok(q[1]) and nested_ok(q[2])
+        return nested_ok(q[2]) and nested_ok(q[3])
+    q0 = stmt_query(s)
+    if q0 is not None and not nested_ok(q0):
+        return False
+    scs = scopes_of(s)
+    for i, a in enumerate(scs):
+        for j, b in enumerate(scs):
+            if i == j:
+                continue
+            for al, x in a:
+                if al is None:
+                    continue
+                for bl, y in b:
+                    if bl == al and y != x and any(ds == y for _, ds in a):
+                        return False
+    return True
+
+
+def gen_recursive(r):
+    """WITH RECURSIVE r1 AS (anchor UNION ALL step reading r1) body reading r1: table level only"""
+    tabs = r.sample([t for t in TABLES if t[1] != "t1"] + [("s1", "t1")], 3)
+    name = r.choice(["r1", "tree", "walk"])
+    anchor = select([iexpr(col(None, "ck"), None), iexpr(col(None, "cx"), None)], [rtable(tabs[0][0], tabs[0][1])])
+    self_ref = rtable(None, name, r.choice([None, "rr"]))
+    step_rels = [rtable(tabs[1][0], tabs[1][1], "e"), self_ref]
+    if r.random() < 0.5:
+        step_rels.reverse()
+    step = select([iexpr(col("e", "ck"), None), iexpr(col("e", "cx"), None)], step_rels, r.random() < 0.3)
+    body_rels = [rtable(None, name, r.choice([None, "b1"]))] + ([rtable(tabs[2][0], tabs[2][1], "o")] if r.random() < 0.5 else [])
+    body = select([iexpr(col(body_rels[0][2] or name, "ck"), None)], body_rels)
+    q = with_(name, union(anchor, step), body)
+    if r.random() < 0.3:
+        first = select([iexpr(col(None, "cy"), None)], [rtable(None, "t5")])
+        q = with_("c0", first, q)
+    return wrap_stmt(r, q, ["ck"])
+
+
+# ---------------------------------------------------------------------------
+# systematic FROM shapes: relation kinds x grouping x join style
+# ---------------------------------------------------------------------------
+SHAPE_KINDS = "TASDJC"   # plain table, aliased table, schema table, derived table, derived table over a join, CTE reference
+
+
+def shape_space():
+    out = []
+    for n in (1, 2, 3):
+        for kinds in itertools.product(SHAPE_KINDS, repeat=n):
+            out.append((kinds, None, False))
+            if n > 1:
+                out.append((kinds, None, True))
+            if n == 3:
+                # the first relation of a group is an un-aliased base table (K-C02-6)
+                if kinds[0] in "TS":
+                    out.append((kinds, "12", False))
+                if kinds[1] in "TS":
+                    out.append((kinds, "23", False))
+    return out
+
+
+def build_shape(shape, idx):
+    kinds, grouping, comma = shape
+    plain = [(None, "t4"), (None, "t5"), (None, "tg")]
+    schemad = [("s1", "t1"), ("s2", "t3"), ("db1.s4", "t6")]
+    inner = [("s1", "t2"), ("s5", "th"), ("s5", "ti"), (None, "tj"), (None, "tk"), (None, "tm")]
+    rels, items, ctes = [], [], []
+    for i, k in enumerate(kinds):
+        al = "a%d" % (i + 1)
+        if k == "T":
+            t = plain[i]; rels.append(rtable(t[0], t[1])); q = t[1]
+        elif k == "A":
+            t = schemad[i]; rels.append(rtable(t[0], t[1], al)); q = al
+        elif k == "S":
+            t = schemad[i]; rels.append(rtable(t[0], t[1])); q = (t[0] + "." + t[1]) if (idx + i) % 2 else t[1]
+        elif k == "D":
+            t = inner[i]; rels.append(rderived(select([iexpr(col(None, "ck"), None), iexpr(col(None, "cx"), "cm")], [rtable(t[0], t[1])]), al)); q = al
+        elif k == "J":
+            t, u = inner[i], inner[i + 3]
+            rels.append(rderived(select([iexpr(col("i%d" % i, "ck"), None), iexpr(col(u[1], "cx"), "cm")],
+                                        [rtable(t[0], t[1], "i%d" % i), rtable(u[0], u[1])]), al)); q = al
+        else:
+            t = inner[i]; name = "w%d" % (i + 1)
+            ctes.append((name, select([iexpr(col(None, "ck"), None), iexpr(col(None, "cz"), "cm")], [rtable(t[0], t[1])])))
+            use_alias = (idx + i) % 3 == 0
+            rels.append(rtable(None, name, al if use_alias else None)); q = al if use_alias else name
+        items.append(iexpr(col(q, "ck" if i % 2 == 0 else "cm" if k in "DJC" else "cx"), "o%d" % (i + 1)))
+    if grouping == "12":
+        rels = [rgroup(rels[0], rels[1]), rels[2]]
+    elif grouping == "23":
+        rels = [rels[0], rgroup(rels[1], rels[2])]
+    q = select(items, rels, comma)
+    for name, body in reversed(ctes):
+        q = with_(name, body, q)
+    kind = ["insert", "ctas", "view", "query", "insertcols"][idx % 5]
+    tgt = TARGETS[idx % 2]
+    if kind == "query": return ("query", q)
+    if kind == "insert": return ("insert", tgt, None, q)
+    if kind == "insertcols": return ("insert", tgt, ["c%d" % j for j in range(len(items))], q)
+    return (kind, tgt, q)
+
+
+def gen_batch(r, n, depths=(0, 1, 2, 2), shapes=None, reuse=None):
+    """n random statements followed by [shapes] statements drawn without replacement from the systematic shape space
+    (all of it when shapes is None)"""
+    out = [gen_stmt(r, r.choice(list(depths)), reuse) for _ in range(n)]
+    space = list(enumerate(shape_space()))
+    pick = space if shapes is None or shapes >= len(space) else r.sample(space, shapes)
+    return out + [build_shape(sh, i) for i, sh in pick]
 
 
 def local_names(s):
